@@ -305,8 +305,12 @@ let paren_comma (e : expr) : bool =
 let rec tree_case oc r stream (e : expr) ~(listy : bool) =
   if not (pp_wf e) then failwith ("c08: generated tree is not well formed: " ^ sexp e);
   let vs = variants r e in
-  List.iter (fun x -> if not x.safe then failwith ("c08: spacing not safe: " ^ x.style ^ " " ^ x.src)) vs;
-  case_with oc stream e ~listy vs
+  (* a spelling the lexer translated from the source would not read back token by token is left out (on the unchanged
+     tree there is none: C08_spacing_safe); the trees, the other spellings and the hand-written cases still run, so that
+     a changed lexer comes with a failing input and not only with the broken theorem *)
+  let unsafe, vs = List.partition (fun x -> not x.safe) vs in
+  List.iter (fun x -> prerr_endline ("c08: spacing not safe, spelling left out: " ^ x.style ^ " " ^ x.src)) (match unsafe with x :: _ -> [ x ] | [] -> []);
+  if vs <> [] then case_with oc stream e ~listy vs
 
 (* a tree with the spellings vs (either printed by the verified printers or written by hand) *)
 and case_with oc stream (e : expr) ~(listy : bool) (vs : variant list) =
@@ -401,6 +405,12 @@ let table_cases : (string * expr) list =
     "'.5' < i5", b BLt (slit ".5") (v "i5");
     "'5-' == i5", b BEq (slit "5-") (v "i5");
     "'--5' == i5", b BEq (slit "--5") (v "i5");
+    "i5--i3", b BSub (v "i5") (EUn (UNeg, v "i3"));
+    "i5 - -i3", b BSub (v "i5") (EUn (UNeg, v "i3"));
+    "7--2*3", b BSub (i 7) (b BMul (EUn (UNeg, i 2)) (i 3));
+    "i5*-i3", b BMul (v "i5") (EUn (UNeg, v "i3"));
+    "i5==-7", b BEq (v "i5") (EUn (UNeg, i 7));
+    "neg==-7", b BEq (v "neg") (EUn (UNeg, i 7));
     "1 + 2 in lng", b BIn (b BAdd (i 1) (i 2)) (v "lng");
     "6 / 2 in lng", b BIn (b BDiv (i 6) (i 2)) (v "lng");
     "i3 * 20 in lng", b BIn (b BMul (v "i3") (i 20)) (v "lng");
